@@ -41,11 +41,52 @@ def phase_of(label, idx, labels):
     return "construct"
 
 
+class FirstSrc:
+    """stands in for the draw source where a scenario is completed after generation: always the first choice"""
+
+    def choice(self, xs):
+        return list(xs)[0]
+
+    def int(self, lo, hi):
+        return lo
+
+    def bool(self, p=0.5):
+        return p >= 0.5
+
+
+def add_multimappers(src, sc):
+    """Multi-mapped reads whose alignments lie on different chromosomes and match no isoform (see scenarios())."""
+    cand = [(g, t) for g in sc["genes"] for t in g["transcripts"] if len(t["exons"]) >= 3]
+    if not cand:
+        return False
+    g, t = src.choice(cand)
+    par = S.add_paralog(src, sc, g, new_chrom_p=1.0)
+    ex = [list(e) for e in t["exons"]]
+    off = par["offset"]
+    for k in range(src.int(1, 3)):
+        if len(ex) >= 4 and src.bool(0.7):
+            i = src.int(1, len(ex) - 2)
+            j = src.choice([x for x in range(1, len(ex) - 1) if x != i])
+            one = ex[:i] + ex[i + 1:]
+            two = ex[:j] + ex[j + 1:] if src.bool(0.5) else ex[:1] + ex[-1:]
+        else:
+            i = src.int(1, len(ex) - 2)
+            one = ex[:i] + ex[i + 1:]                                    # an exon skipped
+            two = ex[:i] + [[ex[i][0], ex[i + 1][1]]] + ex[i + 2:]         # an intron retained
+        if src.bool(0.5):
+            one, two = two, one
+        fl = 256 | (16 if g["strand"] == "-" else 0)
+        sc["reads"].append(R.make_read("mm%d" % k, g["chr"], one, flag=fl, mapq=src.choice([20, 20, 3])))
+        sc["reads"].append(R.make_read("mm%d" % k, par["chr"], [[a + off, b + off] for a, b in two], flag=fl,
+                                       mapq=src.choice([20, 20, 3])))
+    return True
+
+
 @st.composite
 def scenarios(draw):
     src = S.DrawSrc(draw)
     sc = S.gen_discovery(src, n_chroms=(1, 3), genes_per_chrom=(1, 2), novel_per_gene=(0, 1), reads_known=(1, 3),
-                         reads_novel=(3, 4), intergenic_p=0.2, max_exons=4, exact=True)
+                         reads_novel=(3, 4), intergenic_p=0.2, max_exons=5, exact=True)
     sc.pop("truth", None)
     # state that only the intermediate files carry: most reads have a polyA tail (so the run decides to require tails
     # for novel models) while the reads of one unannotated isoform have none (its model appears iff that decision,
@@ -59,6 +100,13 @@ def scenarios(draw):
                 r["cg"] = [x for x in r["cg"] if x[0] != 4]
                 r.pop("sl", None)
                 r.pop("sr", None)
+    # multi-mapped reads whose alignments lie on different chromosomes (so that an interrupted collection has
+    # finished one and not the other) and match no isoform: a copy of a spliced read without one inner block at the
+    # same gene, another copy without another block at a paralogous gene, both secondary records (valid: the primary
+    # one may have been filtered out before); which one is kept must not depend on where the run was interrupted
+    sc["multimap"] = src.bool(0.45)
+    if sc["multimap"]:
+        add_multimappers(src, sc)
     lens = {c[0]: c[1] for c in sc["chroms"]}
     sc["reads"] = [r for r in sc["reads"] if R.cigar_blocks(r["p"], r["cg"])[-1][1] + 45 < lens[r["c"]]]
     for i in range(src.int(0, 3)):
@@ -76,6 +124,8 @@ def scenarios(draw):
         sc["opts"] += ["--keep_tmp"]
     if src.bool(0.3):
         sc["opts"] += ["--count_exons"]
+    if src.bool(0.5 if sc["multimap"] else 0.2):
+        sc["opts"] += ["--high_memory"]
     # state outside the run's own intermediate files: a plain-gzipped reference (unpacked into the output folder), and
     # an output folder that still holds a complete earlier run on other reads (the interrupted run uses --force)
     sc["gz_reference"] = src.bool(0.3)
@@ -389,6 +439,15 @@ def run_enumeration(shard, nshards, seed, n, ctx, tier="quick"):
             sc["opts"] = [o for o in sc["opts"] if o != "--keep_tmp"]
         sc["stale_dir"] = i % 2 == 1
         sc["gz_reference"] = i % 2 == 0
+        if not counter.get("mm") or i % 3 == 2:
+            # multi-mapped reads on two chromosomes, kept in memory: the first scenario of a run that has a spliced
+            # isoform to derive them from (the very first scenario is usually Hypothesis' minimal one), then every third
+            if not any(r["n"].startswith("mm") for r in sc["reads"]):
+                sc["multimap"] = add_multimappers(FirstSrc(), sc)
+            if any(r["n"].startswith("mm") for r in sc["reads"]):
+                counter["mm"] = True
+                if "--high_memory" not in sc["opts"]:
+                    sc["opts"] += ["--high_memory"]
         if i < 2:
             # relative names are made absolute when the parameters are saved: a superset of runs given absolute names
             sc["relative"] = True
